@@ -366,11 +366,11 @@ func (h *HarnessRun) Result(err error) *HarnessResult {
 }
 
 func NewHarnessRun(P *Program, spec *HarnessSpec, tier string) *HarnessRun {
-	h := &HarnessRun{spec: spec, P: P, tier: tier, unwind: 12, maxSteps: 2000000, solverMs: 20000,
+	h := &HarnessRun{spec: spec, P: P, tier: tier, unwind: 64, maxSteps: 2000000, solverMs: 20000,
 		reach: map[string]int{}, stubs: map[string]bool{}, sqls: map[string]bool{}, funcs: map[string]bool{}, bounds: map[string]bool{},
 		oblLabels: map[string]int{}, seenViol: map[string]bool{}, opts: map[string]int{}, maxPaths: 200000}
 	if tier == "thorough" {
-		h.unwind = 20
+		h.unwind = 128
 		h.solverMs = 120000
 	}
 	if spec.Unwind > 0 {
